@@ -21,7 +21,7 @@ fn spec(t: Tier) -> Spec {
     Spec {
         id: "C09",
         level: "exploration",
-        rule: format!("files named by every string of <= {} characters over {:?} (plus '{{}}', '-a', 'a b', \"a'b\") in one directory, and a directory of names that are not valid UTF-8 (bytes ff, c3, a ff b); argument templates = every list of <= {} arguments over the pieces {:?}; child outcomes {:?} (scripted per invocation; 'missing' = command does not exist); positions of the action {:?}; -exec and -execdir. Slices: all templates x all names (outcome 0, both primaries); all outcomes x positions x primaries on 3 templates with outcomes alternating per file; a binary slice through the find binary. The recorder child logs its argv and cwd: there must be exactly one run per entry on which the action is reached, in visit order (-sorted), each argument = the template with every '{{}}' replaced by the path (t/NAME, or ./NAME with cwd = the parent directory for -execdir) and all other text unchanged, element for element byte-identical; a following labelled -printf fires exactly for the entries whose child exited 0; find's exit status stays 0 whatever the children do. evaluation = one child invocation checked; interleaving slice: `-printf '%p ' -exec echo X ;` (also -execdir, text before and after the action, the {{}} + form) through the binary with standard output a pipe — find's own text for an entry must precede the output of the command run for it; scale templates: one argument holding {{}} 5, 8, 9, 12 and 20 times, 30 arguments {{}}, 70 000 bytes of literal text before and 100 000 after a {{}}; non-trivial = name with a character other than a and .", t.pick(1, 2), ALPHA, t.pick(2, 3), PIECES, OUTCOMES, POSITIONS),
+        rule: format!("files named by every string of <= {} characters over {:?} (plus '{{}}', '-a', 'a b', \"a'b\") in one directory, and a directory of names that are not valid UTF-8 (bytes ff, c3, a ff b); argument templates = every list of <= {} arguments over the pieces {:?}; child outcomes {:?} (scripted per invocation; 'missing' = command does not exist); positions of the action {:?}; -exec and -execdir. Slices: all templates x all names (outcome 0, both primaries); all outcomes x positions x primaries on 3 templates with outcomes alternating per file; a binary slice through the find binary. The recorder child logs its argv and cwd: there must be exactly one run per entry on which the action is reached, in visit order (-sorted), each argument = the template with every '{{}}' replaced by the path (t/NAME, or ./NAME with cwd = the parent directory for -execdir) and all other text unchanged, element for element byte-identical; a following labelled -printf fires exactly for the entries whose child exited 0; find's exit status stays 0 whatever the children do. evaluation = one child invocation checked; PATH slice: the command named without a slash, PATH listing first a directory with a non-executable file / a directory of that name and then the real command (-exec/-execdir, ; and +): it must be run as exec would; interleaving slice: `-printf '%p ' -exec echo X ;` (also -execdir, text before and after the action, the {{}} + form) through the binary with standard output a pipe — find's own text for an entry must precede the output of the command run for it; scale templates: one argument holding {{}} 5, 8, 9, 12 and 20 times, 30 arguments {{}}, 70 000 bytes of literal text before and 100 000 after a {{}}; non-trivial = name with a character other than a and .", t.pick(1, 2), ALPHA, t.pick(2, 3), PIECES, OUTCOMES, POSITIONS),
         bound: json!({"max_name_len": t.pick(1, 2), "max_template_args": t.pick(2, 3), "outcomes": OUTCOMES, "positions": POSITIONS}),
         assumptions: vec!["the labelled -printf (truth value) is only used on names that are valid UTF-8; tmpfs; -sorted pins the visit order; children are real processes (fork+exec per file)".into()],
         shards: 0,
@@ -371,6 +371,11 @@ fn run(ctx: &mut Ctx) {
     if ctx.shard == 3 % ctx.nshards {
         interleaving_slice(ctx);
     }
+    // slice 2e: the command is looked up the way exec does: a PATH whose earlier directory holds a
+    // file of that name that cannot be executed (no x bit / a directory) must not hide the real one
+    if ctx.shard == 4 % ctx.nshards {
+        path_lookup_slice(ctx);
+    }
     // slice 3: names that are not valid UTF-8 (argv bytes only: the labelled output is not used)
     nonutf8_slice(ctx, &mut job);
 }
@@ -408,6 +413,50 @@ fn interleaving_slice(ctx: &mut Ctx) {
     let _ = crate::sandbox::force_remove(&t);
 }
 
+fn path_lookup_slice(ctx: &mut Ctx) {
+    use std::os::unix::fs::PermissionsExt;
+    let sbx = ctx.sbx.clone();
+    let base = sbx.join("pl");
+    let _ = crate::sandbox::force_remove(&base);
+    for d in ["pl/A", "pl/B", "pl/C", "pl/t"] {
+        std::fs::create_dir_all(sbx.join(d)).unwrap();
+    }
+    std::fs::write(base.join("t/f"), b"").unwrap();
+    // A: same name, not executable; C: same name, a directory; B: the real command
+    std::fs::write(base.join("A/mccmd"), b"#!/bin/sh\nexit 7\n").unwrap();
+    std::fs::set_permissions(base.join("A/mccmd"), std::fs::Permissions::from_mode(0o644)).unwrap();
+    std::fs::create_dir(base.join("C/mccmd")).unwrap();
+    std::fs::copy(crate::engine::self_bin_dir().join("vrec"), base.join("B/mccmd")).unwrap();
+    std::fs::set_permissions(base.join("B/mccmd"), std::fs::Permissions::from_mode(0o755)).unwrap();
+    let log = sbx.join(".mc-vrec.log");
+    let (a, b, c) = (base.join("A").display().to_string(), base.join("B").display().to_string(), base.join("C").display().to_string());
+    for path in [format!("{a}:{b}"), format!("{c}:{b}"), format!("{a}:{c}:{b}:/usr/bin"), format!("{b}:{a}"), format!("/nonexistent:{b}")] {
+        for prim in ["-exec", "-execdir"] {
+            for term in [";", "+"] {
+                let _ = std::fs::remove_file(&log);
+                let args: Vec<String> = vec!["t".into(), "-type".into(), "f".into(), prim.into(), "mccmd".into(), log.display().to_string(), "{}".into(), term.into(), "-print".into()];
+                let aos: Vec<&OsStr> = args.iter().map(OsStr::new).collect();
+                let o = crate::binrun::run(&crate::binrun::repo_bin("find"), &aos, &base, &crate::binrun::Opts { env: vec![("PATH".into(), path.clone().into())], timeout_s: 30, ..Default::default() });
+                let recs = crate::vreclog::read(&log).unwrap_or_default();
+                ctx.rep.evaluations += 1;
+                ctx.rep.nontrivial += 1;
+                ctx.rep.count("path_lookup_cases", 1);
+                let printed = String::from_utf8_lossy(&o.out).lines().any(|l| l == "t/f");
+                let want_arg: &[u8] = if prim == "-execdir" { b"./f" } else { b"t/f" };
+                let ran = recs.len() == 1 && recs[0].args.len() == 1 && recs[0].args[0] == want_arg;
+                if !ran || !printed || o.code != Some(0) {
+                    ctx.rep.violation(
+                        "C09 the command is not found through PATH as exec would find it (an earlier directory holds an unusable file of that name)",
+                        format!("PATH={path} find {:?}: status {:?}, {} invocation(s) recorded, -print after the action reached: {printed}; stderr {:?}", args, o.code, recs.len(), String::from_utf8_lossy(&o.err)),
+                        json!({"prop":"C09","path_lookup":true}),
+                    );
+                }
+            }
+        }
+    }
+    let _ = crate::sandbox::force_remove(&base);
+}
+
 fn nonutf8_slice(ctx: &mut Ctx, job: &mut u64) {
     let ns = names(0);
     let ts = templates(2);
@@ -433,6 +482,10 @@ fn nonutf8_slice(ctx: &mut Ctx, job: &mut u64) {
 }
 
 fn replay(case: &Value, ctx: &mut Ctx) -> Option<String> {
+    if case["path_lookup"] == true {
+        path_lookup_slice(ctx);
+        return ctx.rep.violations.keys().next().cloned();
+    }
     if case["interleaving"] == true {
         interleaving_slice(ctx);
         return ctx.rep.violations.keys().next().cloned();
